@@ -264,6 +264,11 @@ def record_call(doc, call):
                 ev['res'] = {'ok': True, 'v': [int(x) for x in doc]}
             except Exception as ex:  # noqa
                 ev['res'] = {'ok': False, 'v': []}
+        elif op == 'iterpairs':
+            try:
+                ev['res'] = {'ok': True, 'v': [[int(x), int(y)] for x, y in zip(doc, doc)]}
+            except Exception as ex:  # noqa
+                ev['res'] = {'ok': False, 'v': []}
         elif op == 'mcount':
             try:
                 ev['res'] = {'ok': True, 'v': int(doc.measures_count())}
@@ -286,6 +291,14 @@ def record_call(doc, call):
                 doc.get_header_nodes()
             elif what == 'str_tokens':
                 [str(n.token) for st in doc.tree.stages[1:] for n in st]
+            elif what == 'partial_iter':
+                try:
+                    it = iter(doc)
+                    next(it, None)
+                    for _m in doc:
+                        break
+                except Exception:  # noqa
+                    pass
             elif what == 'bad_dumps':
                 try:
                     run_quiet(kp.dumps, doc, from_measure=-3)
